@@ -23,8 +23,7 @@ Proof.
   - apply Z.leb_le in E. constructor; [constructor; assumption|].
     constructor; [assumption|]. eapply Forall_impl; [|exact F]. intros; lia.
   - apply Z.leb_gt in E. constructor; [assumption|].
-    apply (Permutation_Forall (l := z :: l)); [symmetry; apply zinsert_perm|].
-    constructor; [lia|assumption].
+    rewrite zinsert_perm. constructor; [lia|assumption].
 Qed.
 Lemma zsort_sorted l : StronglySorted Z.le (zsort l).
 Proof.
@@ -60,6 +59,8 @@ Fixpoint ev_log (z : Z) (evs : list cev) : list (Z * layer) :=
   end.
 
 Definition zis (z : Z) (e : Z * layer) : bool := (fst e =? z)%Z.
+Lemma zis_pair z k (a : layer) : zis z (k, a) = (k =? z)%Z.
+Proof. reflexivity. Qed.
 
 Definition cv_inv (cv : canvas) (log : list (Z * layer)) : Prop :=
   NoDup (map fst (cvlayers cv)) /\
@@ -77,7 +78,8 @@ Lemma al_append_keys al z l :
 Proof.
   induction al as [|[k ls] al IH]; cbn [al_append map fst]; [reflexivity|].
   destruct (k =? z)%Z eqn:E.
-  - apply Z.eqb_eq in E. subst k. cbn [map fst]. destruct (in_dec _ _ _) as [_|N]; [reflexivity|].
+  - apply Z.eqb_eq in E. subst k. cbn [map fst]. clear IH.
+    destruct (in_dec Z.eq_dec z (z :: map fst al)) as [_|N]; [reflexivity|].
     exfalso; apply N; left; reflexivity.
   - apply Z.eqb_neq in E. cbn [map fst]. rewrite IH.
     destruct (in_dec Z.eq_dec z (map fst al)) as [I|N]; destruct (in_dec Z.eq_dec z (k :: map fst al)) as [I'|N']; try reflexivity.
@@ -92,7 +94,7 @@ Proof.
   - rewrite (Z.eqb_sym z z'). destruct (z' =? z)%Z; reflexivity.
   - destruct (k =? z)%Z eqn:E; cbn [al_lookup].
     + apply Z.eqb_eq in E. subst k. rewrite (Z.eqb_sym z z'). destruct (z' =? z)%Z eqn:E'; [|reflexivity].
-      rewrite Z.eqb_refl. reflexivity.
+      rewrite ?Z.eqb_refl. reflexivity.
     + destruct (k =? z')%Z eqn:E'.
       * apply Z.eqb_eq in E'. subst k. rewrite E. reflexivity.
       * rewrite IH. reflexivity.
@@ -105,7 +107,7 @@ Proof.
     apply (Permutation_NoDup (l := cvz cv :: map fst (cvlayers cv))).
     + rewrite Permutation_app_comm. reflexivity.
     + constructor; assumption.
-  - intro z. rewrite al_lookup_append, filter_app, map_app. cbn [filter zis fst].
+  - intro z. rewrite al_lookup_append, filter_app, map_app. cbn [filter]. rewrite zis_pair.
     rewrite (Z.eqb_sym (cvz cv) z). destruct (z =? cvz cv)%Z eqn:E.
     + apply Z.eqb_eq in E. subst z. rewrite LK. reflexivity.
     + rewrite LK, app_nil_r. reflexivity.
@@ -122,13 +124,21 @@ Proof.
   - apply (IH (cv_setz cv z) log). exact I.
 Qed.
 
+Lemma filter_same z (ls : list layer) : filter (zis z) (map (pair z) ls) = map (pair z) ls.
+Proof.
+  induction ls as [|a ls IH]; cbn [map filter]; [reflexivity|]. rewrite zis_pair, Z.eqb_refl, IH. reflexivity.
+Qed.
+Lemma filter_other z k (ls : list layer) : k <> z -> filter (zis z) (map (pair k) ls) = [].
+Proof.
+  intro N. induction ls as [|a ls IH]; cbn [map filter]; [reflexivity|]. rewrite zis_pair.
+  destruct (k =? z)%Z eqn:E; [apply Z.eqb_eq in E; contradiction|exact IH].
+Qed.
+
 Lemma filter_tagged_notin al ks z : ~ In z ks -> filter (zis z) (tagged_of al ks) = [].
 Proof.
   unfold tagged_of. induction ks as [|k ks IH]; cbn [flat_map]; [reflexivity|]. intro N.
   rewrite filter_app, IH by (intro I; apply N; right; exact I). rewrite app_nil_r.
-  assert (K : k <> z) by (intro E; apply N; left; exact E).
-  induction (al_lookup al k) as [|a ls IHl]; cbn [map filter zis fst]; [reflexivity|].
-  destruct (k =? z)%Z eqn:E; [apply Z.eqb_eq in E; contradiction|exact IHl].
+  apply filter_other. intro E; apply N; left; exact E.
 Qed.
 
 Lemma filter_tagged_in al ks z :
@@ -136,18 +146,13 @@ Lemma filter_tagged_in al ks z :
 Proof.
   unfold tagged_of. induction 1 as [|k ks N ND IH]; [intros []|]. intro I. cbn [flat_map]. rewrite filter_app.
   destruct (Z.eq_dec k z) as [E|E].
-  - subst k. fold (tagged_of al ks). rewrite filter_tagged_notin by exact N. rewrite app_nil_r.
-    induction (al_lookup al z) as [|a ls IHl]; cbn [map filter zis fst]; [reflexivity|].
-    rewrite Z.eqb_refl, IHl. reflexivity.
-  - destruct I as [I|I]; [contradiction|]. rewrite IH by exact I.
-    replace (filter (zis z) (map (pair k) (al_lookup al k))) with (@nil (Z * layer)); [reflexivity|].
-    induction (al_lookup al k) as [|a ls IHl]; cbn [map filter zis fst]; [reflexivity|].
-    destruct (k =? z)%Z eqn:E'; [apply Z.eqb_eq in E'; contradiction|exact IHl].
+  - subst k. fold (tagged_of al ks). rewrite filter_tagged_notin by exact N. rewrite app_nil_r. apply filter_same.
+  - destruct I as [I|I]; [contradiction|]. rewrite IH by exact I. rewrite filter_other by exact E. reflexivity.
 Qed.
 
 Lemma map_pair_filter z (log : list (Z * layer)) : map (pair z) (map snd (filter (zis z) log)) = filter (zis z) log.
 Proof.
-  induction log as [|[k l] log IH]; cbn [filter zis fst]; [reflexivity|].
+  induction log as [|[k l] log IH]; cbn [filter]; rewrite ?zis_pair; [reflexivity|].
   destruct (k =? z)%Z eqn:E; [|exact IH]. apply Z.eqb_eq in E. subst k. cbn [map snd]. rewrite IH. reflexivity.
 Qed.
 
@@ -231,6 +236,10 @@ Lemma Forall2_map_same {A B C} (R : B -> C -> Prop) (f : A -> B) (g : A -> C) l 
   (forall x, R (f x) (g x)) -> Forall2 R (map f l) (map g l).
 Proof. intro Hx. induction l; cbn [map]; constructor; auto. Qed.
 
+Lemma Forall2_weaken {A B} (R R' : A -> B -> Prop) l l' :
+  (forall a b, R a b -> R' a b) -> Forall2 R l l' -> Forall2 R' l l'.
+Proof. intros Hx F. induction F; constructor; auto. Qed.
+
 (** Transform(m) keeps the replay order, z-indices, objects, styles; every point of every object is moved by m *)
 Definition moved_by (f : pfn) (a b : Z * layer) : Prop :=
   fst a = fst b /\ robj (snd a) = robj (snd b) /\ rst (snd a) = rst (snd b) /\ rb (snd a) = rb (snd b) /\
@@ -240,7 +249,8 @@ Theorem transform_consistent cv m :
   Forall2 (moved_by (mdot m)) (tagged cv) (tagged (cv_transform cv m)).
 Proof.
   rewrite tagged_transform. rewrite <- (map_id (tagged cv)) at 1. apply Forall2_map_same.
-  intros [z l]. unfold moved_by, tr_layer, with_m; cbn [fst snd robj rst rb rm]. repeat split; try reflexivity.
+  intros [z l]. unfold moved_by, tr_layer, with_m; cbn [fst snd robj rst rb rm].
+  do 4 (split; [reflexivity|]).
   intro p. eapply pteq_trans; [apply mdot_mnorm | apply mdot_mmul].
 Qed.
 
@@ -250,7 +260,7 @@ Theorem transform_then_render cv m V :
           (cv_render_view (cv_transform cv m) V) (cv_render_view cv (mmul V m)).
 Proof.
   rewrite !render_view_applies_view, tagged_transform, map_map. apply Forall2_map_same.
-  intros [z l]. unfold tr_layer, with_m; cbn [fst snd robj rst rb rm]. repeat split; try reflexivity.
+  intros [z l]. unfold tr_layer, with_m; cbn [fst snd robj rst rb rm]. do 3 (split; [reflexivity|]).
   eapply meq_trans; [apply mnorm_meq|]. eapply meq_trans; [|apply meq_sym, mnorm_meq].
   eapply meq_trans; [apply mmul_meq; [apply meq_refl | apply mnorm_meq]|]. apply meq_sym, mmul_assoc.
 Qed.
@@ -262,8 +272,8 @@ Theorem clip_consistent cv r :
 Proof.
   split; [|split; cbn [cv_clip cvW cvH]; apply Qred_correct].
   assert (T : tagged (cv_clip cv r) = tagged (cv_transform cv (mtranslate mid (- rx0 r) (- ry0 r)))) by reflexivity.
-  rewrite T. eapply Forall2_impl; [|apply transform_consistent].
-  intros a b (A & B & C & D & E). repeat split; try assumption.
+  rewrite T. eapply Forall2_weaken; [|apply transform_consistent].
+  intros a b (A & B & C & D & E). do 4 (split; [assumption|]).
   intro p. eapply pteq_trans; [apply E|].
   unfold pteq, mdot, mtranslate, mmul, mid; cbn [ma mb mc md me mf fst snd]. split; ring.
 Qed.
@@ -366,16 +376,17 @@ Proof.
     + intros _. apply rcontains_refl.
     + intros l [].
   - assert (R' : regular ls) by (intros l' I; apply R; right; exact I).
-    unfold fit_acc at 2. fold (tbounds l).
+    assert (FA : fit_acc acc l = if rempty (layer_bounds l) then acc
+                                 else if rempty acc then tbounds l else radd acc (tbounds l)) by reflexivity.
     destruct (rempty (layer_bounds l)) eqn:E.
-    + destruct (IH acc R' A) as (I1 & I2 & I3). split; [|split].
+    + rewrite FA. destruct (IH acc R' A) as (I1 & I2 & I3). split; [|split].
       * destruct I1 as [I1|[I1 I1']]; [left; exact I1|right; split; [exact I1|]].
         intros l' [<-|I]; [exact E|apply I1'; exact I].
       * exact I2.
       * intros l' [<-|I] N; [congruence|apply I3; assumption].
     + assert (P : rpos (tbounds l)) by (apply rtransform_nonempty_pos, R; [left; reflexivity|exact E]).
       destruct A as [A|A].
-      * rewrite (rpos_nonempty _ A).
+      * rewrite (rpos_nonempty _ A) in FA. rewrite FA.
         destruct (IH (radd acc (tbounds l)) R' (or_introl (rpos_radd _ _ A))) as (I1 & I2 & I3).
         assert (C := I2 (rpos_radd _ _ A)). split; [|split].
         -- destruct I1 as [I1|[I1 _]]; [left; exact I1|].
@@ -383,7 +394,7 @@ Proof.
            unfold rW in W. cbn [rx0 rx1] in C1, C3. pose proof eps_pos. lra.
         -- intros _. eapply rcontains_trans; [exact C|apply radd_contains_l].
         -- intros l' [<-|I] N; [eapply rcontains_trans; [exact C|apply radd_contains_r]|apply I3; assumption].
-      * subst acc. replace (rempty (mkR 0 0 0 0)) with true by reflexivity.
+      * subst acc. replace (rempty (mkR 0 0 0 0)) with true in FA by reflexivity. rewrite FA.
         destruct (IH (tbounds l) R' (or_introl P)) as (I1 & I2 & I3). split; [|split].
         -- destruct I1 as [I1|[I1 _]]; [left; exact I1|].
            exfalso. assert (C := I2 P). rewrite I1 in C. destruct C as (C1 & _ & C3 & _). destruct P as [W _].
@@ -449,7 +460,7 @@ Example fit_contains_ex :
   let l1 := mkRop (OPath [(1%Z, 0, 0); (2%Z, 4, 3)]) default_style (mkM 2 0 10 0 2 (-5)) (mkR 0 0 4 3) in
   let l2 := mkRop (OText 1) default_style (mkM 0 (-1) 3 1 0 7) (mkR 0 (-2) 9 5) in
   let cv := mkCv [(0%Z, [l1]); (2%Z, [l2])] 0 100 100 in
-  regular (all_layers cv) /\ cvW (cv_fit cv 1) == 18 /\ cvH (cv_fit cv 1) == 23.
+  regular (all_layers cv) /\ cvW (cv_fit cv 1) == 22 /\ cvH (cv_fit cv 1) == 23.
 Proof.
   cbn zeta. split; [|split; reflexivity].
   intros l [<-|[<-|[]]] _; reflexivity.
@@ -473,4 +484,25 @@ Theorem fit_size cv margin :
 Proof.
   cbn zeta. unfold cv_fit, cv_clip; cbn [cvW cvH]. rewrite !Qred_correct.
   unfold fit_rect, rexpand, rW, rH; cbn [rx0 ry0 rx1 ry1]. split; ring.
+Qed.
+
+(** * The system: Context over Canvas *)
+
+(** canvas-level calls and z-index changes never touch the Context (so the Context theorems, which hold for every
+    W, H, apply unchanged when Transform/Clip/Fit/SetZIndex are interleaved) *)
+Theorem sys_canvas_calls_keep_ctx s o :
+  match o with Ctx (SetZIndex _) | CvTransform _ | CvClip _ | CvFit _ => sctx (sys_step s o) = sctx s | _ => True end.
+Proof. destruct o as [o| | |]; try reflexivity. destruct o; exact I || reflexivity. Qed.
+
+(** a Context call acts on the Context as [ctx_step] with the canvas' current size and changes the canvas only by
+    recording what [ctx_step] hands on, in order, at the current z-index *)
+Theorem sys_ctx_call_records s o :
+  (forall z, o <> SetZIndex z) ->
+  sys_step s (Ctx o) =
+  mkSys (fst (ctx_step (cvW (scv s)) (cvH (scv s)) (sctx s) o))
+        (fold_left cv_ev (map EvRec (snd (ctx_step (cvW (scv s)) (cvH (scv s)) (sctx s) o))) (scv s)).
+Proof.
+  intro N. rewrite <- fold_record_events.
+  destruct o; try (exfalso; eapply N; reflexivity);
+    unfold sys_step; destruct (ctx_step (cvW (scv s)) (cvH (scv s)) (sctx s) _) as [c' out]; reflexivity.
 Qed.
